@@ -194,7 +194,10 @@ CHECKS = {
         rule=("cases are scenarios of 6-40 steps; non-trivial = a convergence check was evaluated AND (a writer step ran while a STREAM subscription was parked between its start and its sync, "
               "or a writer was parked between tree write and feed while a subscription's walk was released); distinct = distinct hash of the scenario"),
         assumptions=COMMON + [SYNCTEST_ASSUMPTION],
-        parts=[dict(name="random", run="TestC04Random", checks=dict(quick=3000, thorough=15000), shards=dict(quick=1, thorough=16))],
+        parts=[dict(name="random", run="TestC04Random", checks=dict(quick=3000, thorough=15000), shards=dict(quick=1, thorough=16)),
+               # free-running: one writer goroutine per target + staggered subscribers on the real scheduler inside a synctest bubble,
+               # no gates; convergence / single sync / no invention at the final quiescent point (synctest.Wait)
+               dict(name="stress", run="TestC04Stress", rapid=False, args=dict(quick=["-c04.stress=400"], thorough=["-c04.stress=6000"]), shards=dict(quick=1, thorough=8))],
     ),
     "C05": dict(
         engine="subprop",
